@@ -55,6 +55,65 @@ def nonzeroIdx (l : List Nat) : List Nat := nonzeroIdxFrom 0 l
 /-- `a[idx]` for an index array (fancy indexing); an index outside the array (IndexError in Python) is dropped -/
 def gather {β : Type} (l : List β) (idx : List Nat) : List β := idx.filterMap (fun i => l[i]?)
 
+/-- `numpy.unique(a)` of an integer array: the distinct values, ascending (insertion into an ascending duplicate-free list) -/
+def insertUniq (a : Nat) : List Nat → List Nat
+  | [] => [a]
+  | b :: l => if a < b then a :: b :: l else if a = b then b :: l else b :: insertUniq a l
+def np_unique (l : List Nat) : List Nat := l.foldr insertUniq []
+
+/-- `a[rows, cols]` for a 2-D float64 array (list of rows) and two integer index arrays of one size: the elements
+    `a[rows[k], cols[k]]` (negative indices as in Python; IndexError not modelled) -/
+def get2 (a : List (List Rat)) (rows cols : List Int) : List Rat :=
+  List.zipWith (fun r c => getF (getA a r) c) rows cols
+
+/-- `numpy.where(cond)[0]` of a flat boolean array: the positions of the True entries, ascending -/
+def whereIdxFrom (k : Nat) : List Bool → List Nat
+  | [] => []
+  | b :: bs => if b then k :: whereIdxFrom (k + 1) bs else whereIdxFrom (k + 1) bs
+def whereIdx (c : List Bool) : List Nat := whereIdxFrom 0 c
+
+/-- `numpy.max(a)` / `numpy.min(a)` of a flat float64 array: a fold from the first element (`ValueError` of an empty array
+    is not modelled: the value is 0) -/
+def np_max : List Rat → Rat
+  | [] => 0
+  | a :: l => l.foldl (fun m b => if m < b then b else m) a
+def np_min : List Rat → Rat
+  | [] => 0
+  | a :: l => l.foldl (fun m b => if b < m then b else m) a
+
+/-- `numpy.any(a)` of a boolean array -/
+def np_any (a : List Bool) : Bool := a.any (fun b => b)
+
+/-- array-level call `f(a, …)` of a function translated for ONE element of `a` (elementwise specialisation) whose `raise`
+    statements do not depend on the element (checked by the translator: no `raise` under an element-dependent condition).
+    The call raises iff the function raises — probed with the default element, so an empty array raises as well, as in
+    Python, where the check is made once for the whole array — and otherwise returns the results per element. -/
+def mapUniform {β γ : Type} [Inhabited β] [Inhabited γ] (f : β → Except Err γ) (a : List β) : Except Err (List γ) :=
+  match f default with
+  | .error e => .error e
+  | .ok _ => .ok (a.map (fun x => match f x with | .ok v => v | .error _ => default))
+
+/-- `a[mask]` for a boolean array `mask` of the size of `a`: the elements at the True positions, in order -/
+def compress {β : Type} (mask : List Bool) (a : List β) : List β :=
+  (List.zip mask a).filterMap (fun p => if p.1 then some p.2 else none)
+
+/-! ## sorted arrays -/
+
+/-- `numpy.sort(a)` of a 1-D array: the ascending rearrangement of `a` (a stable merge sort by `≤`; on a total order the
+    result is THE sorted permutation, `Src.np_sort_perm` / `Src.np_sort_sorted` in Source/C09.lean). NaN is outside the model. -/
+def np_sort {β : Type} [LE β] [DecidableLE β] (a : List β) : List β := a.mergeSort (fun x y => decide (x ≤ y))
+
+/-- `numpy.searchsorted(a, v)` (`side='left'`): the number of leading elements `< v`. For an ascending `a` this is the
+    smallest `i` with `v ≤ a[i]` (`len(a)` if none), which is what numpy's binary search returns
+    (`Src.searchsorted_left_spec`); on an array that is not ascending numpy's result is unspecified and not modelled. -/
+def searchsorted_left {β : Type} [LT β] [DecidableLT β] (a : List β) (v : β) : Int :=
+  ((a.takeWhile (fun x => decide (x < v))).length : Int)
+
+/-- `numpy.searchsorted(a, v, side='right')`: the number of leading elements `≤ v` (ascending `a`: the smallest `i` with
+    `v < a[i]`) -/
+def searchsorted_right {β : Type} [LE β] [DecidableLE β] (a : List β) (v : β) : Int :=
+  ((a.takeWhile (fun x => decide (x ≤ v))).length : Int)
+
 /-! ## int ↔ float64 -/
 
 /-- conversion of a Python int / int64 to float64 (round to nearest even; exact below 2^53) -/
@@ -166,6 +225,45 @@ def esubFin : ELL α → α → ELL α
 def emulNat : ELL α → Nat → ELL α
   | .negInf, _ => .negInf
   | .fin a, w => .fin (mul a (ofNat w))
+/-- `numpy.zeros(a.shape)` for a flat array of n elements (float64 zeros) -/
+def np_zeros (n : Int) : List α := List.replicate n.toNat zero
+/-- `y[idx] = c` for an index array `idx` (every listed position is overwritten; positions outside `y` — IndexError in
+    Python — are ignored) -/
+def put {β : Type} (y : List β) (idx : List Nat) (c : β) : List β := idx.foldl (fun acc i => acc.set i c) y
+
+/-! ### numpy.ma — a flat masked array is the list of its elements `(data, mask)`.
+    numpy.ma computes the plain operation on the data of ALL slots and then restores, in the masked slots of the result,
+    the data of the FIRST operand (`numpy.copyto(result, da, where=m)` in `_MaskedUnaryOperation.__call__`,
+    `_MaskedBinaryOperation.__call__`, numpy/ma/core.py); `.data` exposes these values. -/
+/-- `numpy.ma.masked_where(cond, a)` -/
+def ma_masked_where (cond : List Bool) (a : List α) : List (α × Bool) := List.zipWith (fun m x => (x, m)) cond a
+/-- `m.data` -/
+def ma_data (m : List (α × Bool)) : List α := m.map (fun p => p.1)
+/-- `-m` (`numpy.ma.negative`), `numpy.exp(m)`: no domain; the mask is kept, masked slots keep their input data -/
+def ma_neg (m : List (α × Bool)) : List (α × Bool) := m.map (fun p => (if p.2 then p.1 else neg p.1, p.2))
+def ma_exp (m : List (α × Bool)) : List (α × Bool) := m.map (fun p => (if p.2 then p.1 else exp p.1, p.2))
+/-- `numpy.log(m)`: domain `x > 0` — slots with `x <= 0` become masked as well (a non-finite result, which also masks, does
+    not exist in the real layer); masked slots keep their input data -/
+def ma_log (m : List (α × Bool)) : List (α × Bool) :=
+  m.map (fun p => let k := p.2 || le p.1 zero; (if k then p.1 else log p.1, k))
+/-- `c - m` for a scalar `c` (`numpy.ma.subtract(c, m)`): masked slots carry the first operand, `c` -/
+def ma_scalar_sub (c : α) (m : List (α × Bool)) : List (α × Bool) := m.map (fun p => (if p.2 then c else sub c p.1, p.2))
+/-- `y * m` for a plain array `y` (`numpy.ma.multiply(y, m)`, reached through `MaskedArray.__rmul__`): masked slots carry
+    the first operand's element `y[i]` -/
+def ma_arr_mul (y : List α) (m : List (α × Bool)) : List (α × Bool) :=
+  List.zipWith (fun yi p => (if p.2 then yi else mul yi p.1, p.2)) y m
+
+/-- `w * x` for a positive count `w` and extended `x`: `w * -inf = -inf` -/
+def enatMul (w : Nat) : ELL α → ELL α
+  | .negInf => .negInf
+  | .fin a => .fin (mul (ofNat w) a)
+/-- `x / d` with `x` extended and `d` finite and positive: `-inf / d = -inf` -/
+def edivFin : ELL α → α → ELL α
+  | .negInf, _ => .negInf
+  | .fin a, d => .fin (div a d)
+/-- `a == b` on finite values of the real layer -/
+def req (a b : α) : Bool := le a b && le b a
+
 /-- `scipy.special.loggamma(n + 1)` for a count n: log n! -/
 def loggammaSucc (n : Nat) : α := logFact n
 /-- `scipy.stats.poisson.cdf(0, r)` = e^{-r} -/
